@@ -8,8 +8,12 @@ CONSTANTS MaxW, MaxO
 VARIABLES cfg, step, pc, stale, built
 vars == <<cfg, step, pc, stale, built>>
 Steps == 3
-Cfgs == [W : {S \in SUBSET Writes : Cardinality(S) \in 1..MaxW}, O : {S \in SUBSET Outs : Cardinality(S) \in 1..MaxO},
-         form : {"ctor", "logvar"}, sw : {"none", "open_trafo_switch", "open_line_switch"}]
+\* form "logvar_rev": ow.log_variable(table, variable, index=<all rows in REVERSED order>) - a logged selection keeps the order
+\* the user gave;  nosb: runpp option neglect_open_switch_branches (an open branch is then switched off through its status
+\* instead of an auxiliary bus) - only meaningful with an open switch
+Cfgs == {c \in [W : {S \in SUBSET Writes : Cardinality(S) \in 1..MaxW}, O : {S \in SUBSET Outs : Cardinality(S) \in 1..MaxO},
+                form : {"ctor", "logvar", "logvar_rev"}, sw : {"none", "open_trafo_switch", "open_line_switch"}, nosb : BOOLEAN] :
+         c.nosb => c.sw # "none"}
 Init == cfg \in Cfgs /\ step = 1 /\ pc = "write" /\ stale = Comp /\ built = FALSE
 \* control_time_step: every ConstControl writes its profile value into the element table
 Write == /\ pc = "write" /\ stale' = stale \cup UNION {Dep(w) : w \in cfg.W} /\ pc' = "solve" /\ UNCHANGED <<cfg, step, built>>
